@@ -1205,7 +1205,15 @@ pub fn invalidate(g: &mut Gen, mut m: Machine) -> (Machine, String) {
             "invalid distribution in a counter"
         }
         _ => {
-            m.states[si] = rebuild(&m.states[si], &mut |t| t[ev] = vec![Trans(maybenot::constants::STATE_SIGNAL + 1, 1.0)]);
+            // STATE_END is the largest pseudo-state; anything above it is no state at all
+            let beyond = *g.pick(&[
+                maybenot::constants::STATE_END + 1,
+                maybenot::constants::STATE_END + 2,
+                1usize << 40,
+                usize::MAX,
+                usize::MAX - 1,
+            ]);
+            m.states[si] = rebuild(&m.states[si], &mut |t| t[ev] = vec![Trans(beyond, 1.0)]);
             "transition target beyond the pseudo-states"
         }
     };
